@@ -2,6 +2,7 @@
   Line protocol for the CLI model (C19). Answers are `depth|ranges` in the 64-bit index space.
 -/
 import Driver.Common
+import MocVerif.Model.Calendar
 import Driver.C06
 import MocVerif.Model.Cli
 
@@ -35,6 +36,18 @@ def stepCli (toks : List String) : Option String :=
     pure (showMoc d (to64 w rs))
   | ["cli_from_usec", d, ts] => do
     let d ← d.toNat?; let ts ← parseNats ts
+    pure (showMoc d (fromMicrosec 64 (Params.time.shiftFromMax 64 d) 100000 ts))
+  | ["cli_from_iso", d, dates] => do
+    -- civil dates `y-m-d-h-mi-s-us` through the model of the tool's date conversion, then the timestamp builder
+    let d ← d.toNat?
+    let ds ← (dates.splitOn ",").mapM fun t =>
+      match t.splitOn "-" with
+      | [y, m, dd, h, mi, s, us] => do
+        let y ← y.toNat?; let m ← m.toNat?; let dd ← dd.toNat?; let h ← h.toNat?; let mi ← mi.toNat?
+        let s ← s.toNat?; let us ← us.toNat?
+        pure (Moc.Calendar.isoUsec y m dd h mi s us)
+      | _ => none
+    let ts := ds.filterMap id
     pure (showMoc d (fromMicrosec 64 (Params.time.shiftFromMax 64 d) 100000 ts))
   | ["cli_from_uranges", d, rs] => do
     let d ← d.toNat?; let rs ← parseRngs rs
